@@ -87,7 +87,8 @@ class FakeTimer:
 class Driver:
     """One gateway life (or several sharing a persistence file) under observation."""
 
-    def __init__(self, version, flavour, interner, persistence_file=None, raising_cb=False, mqtt=False, no_callback=False, spelling=None):
+    def __init__(self, version, flavour, interner, persistence_file=None, raising_cb=False, mqtt=False, no_callback=False, spelling=None,
+                 real_link=False):
         import mysensors
         import mysensors.handler
         import mysensors.task
@@ -101,6 +102,11 @@ class Driver:
         self.raising_cb = raising_cb
         self.no_callback = no_callback      # gateway constructed without event_callback (cb observations are then empty)
         self.mqtt = mqtt
+        # real_link: the library's own SyncTransport / AsyncTransport (and, threaded, the real _poll_queue loop) between the
+        # gateway and a fake connection that can be down
+        self.real_link = bool(real_link) and not mqtt
+        self.wire = []
+        self.linkup = True
         self.cb_log = []
         self.events = []
         self.ops = []
@@ -184,6 +190,52 @@ class Driver:
                     drv.tr.log.append(message)     # what the gateway handed to transport.send
                 orig_send(message)
             real.send = send
+        elif self.real_link:
+            import mysensors.transport as TR
+            import mysensors.task as TASK
+            drv = self
+            base = my.BaseSyncGateway if self.flavour == "sync" else my.BaseAsyncGateway
+            tcls = TR.SyncTransport if self.flavour == "sync" else TR.AsyncTransport
+
+            class LinkGateway(base):
+                def __init__(gself, **kwargs):
+                    super().__init__(tcls(gself, lambda t: None), **kwargs)
+
+            class Conn:
+                """The connection object a reader thread / asyncio would hand to the protocol."""
+                is_open = True
+
+                def __init__(cself):
+                    cself.serial = cself
+
+                def write(cself, data):
+                    drv.wire.append(data.decode("utf-8"))
+
+                def close(cself):
+                    cself.is_open = False
+
+            class PumpTime:
+                time = staticmethod(_time.time)
+
+                @staticmethod
+                def sleep(d):
+                    return None
+            TASK.time = PumpTime
+            self.gw = LinkGateway(**kw)
+            real = self.gw.tasks.transport
+            self.conn = Conn()
+            real.protocol.transport = self.conn if self.linkup else None
+            orig_send, orig_disc = real.send, real.disconnect
+
+            def send(message):
+                if message:
+                    drv.tr.log.append(message)     # what the gateway handed to transport.send
+                return orig_send(message)
+
+            def disconnect():
+                drv.tr.disconnect()                 # (the in-flight hook of stop_restart)
+                return orig_disc()
+            real.send, real.disconnect = send, disconnect
         else:
             cls = my.BaseSyncGateway if self.flavour == "sync" else my.BaseAsyncGateway
             self.gw = cls(self.tr, **kw)
@@ -327,6 +379,10 @@ class Driver:
         ev["outp"] = [describe(ref_parse_cmd(x)[2], self.I) for x in self.tr.log]
         post_tree = json.dumps(self._tree(), sort_keys=True)
         ev["cb"] = [f + [1 if seen == post_tree else 0] for f, seen in self.cb_log]
+        ev["haswire"] = self.real_link
+        ev["linkup"] = self.linkup
+        ev["wire"] = [self._cmd(x) for x in self.wire]
+        del self.wire[:]
         ev["raised"] = bool(raised)
         ev["raisedtype"] = raised or ""
         ev["alive"] = self.alive
@@ -371,12 +427,46 @@ class Driver:
         raised = None
         self.ops.append(["pump"])
         try:
-            reply = self.gw.tasks.run_job()
-            self.gw.tasks.transport.send(reply)
+            if self.real_link:
+                self._one_real_round()
+            else:
+                reply = self.gw.tasks.run_job()
+                self.gw.tasks.transport.send(reply)
         except Exception as exc:  # pylint: disable=broad-except
             raised = type(exc).__name__
             self.alive = False
         return self._emit_event({"a": "Pump"}, raised)
+
+    def _one_real_round(self):
+        """Exactly one round of the real SyncTasks._poll_queue: the second call of run_job raises the stop flag instead of
+        taking a job, so the loop ends at its next test."""
+        tasks = self.gw.tasks
+        real_run_job = tasks.run_job
+        calls = []
+
+        def run_job(job=None):
+            calls.append(1)
+            if len(calls) > 1:
+                tasks._stop_event.set()
+                return None
+            return real_run_job(job)
+        tasks.run_job = run_job
+        try:
+            tasks._stop_event.clear()
+            tasks._poll_queue()
+        finally:
+            del tasks.run_job
+            tasks._stop_event.clear()
+
+    def link(self, up):
+        """The connection to the gateway device goes away / comes back (what connection_lost / connection_made leave behind).
+        Not an action of Gateway.tla: the following events carry the link state."""
+        self.ops.append(["link", bool(up)])
+        self.linkup = bool(up)
+        if self.real_link:
+            proto = self.gw.tasks.transport.protocol
+            if proto is not None:
+                proto.transport = self.conn if up else None
 
     def set_child(self, n, c, t, value, ack=0, key_as_str=False):
         import voluptuous as vol
@@ -553,16 +643,20 @@ class Driver:
 
     def trace(self, meta=None):
         return {"cfg": {"ver": self.version, "flavour": self.flavour, "raising_cb": self.raising_cb,
-                        "persist": bool(self.pfile), "mqtt": self.mqtt, "no_callback": self.no_callback, "spelling": self.spelling, **(meta or {})}, "ev": self.events, "ops": self.ops}
+                        "persist": bool(self.pfile), "mqtt": self.mqtt, "no_callback": self.no_callback, "spelling": self.spelling,
+                        "real_link": self.real_link, **(meta or {})}, "ev": self.events, "ops": self.ops}
 
 
 def replay_ops(cfg, ops, persistence_file=None):
     """Re-execute a recorded history against the current tree; returns the new trace."""
     drv = Driver(cfg["ver"], cfg["flavour"], Interner(), persistence_file=persistence_file,
-                 raising_cb=cfg.get("raising_cb", False), mqtt=cfg.get("mqtt", False), no_callback=cfg.get("no_callback", False), spelling=cfg.get("spelling"))
+                 raising_cb=cfg.get("raising_cb", False), mqtt=cfg.get("mqtt", False), no_callback=cfg.get("no_callback", False), spelling=cfg.get("spelling"),
+                 real_link=cfg.get("real_link", False))
     for op in ops:
         k = op[0]
-        if k == "recv":
+        if k == "link":
+            drv.link(op[1])
+        elif k == "recv":
             drv.recv(op[1], now=op[2])
         elif k == "pump":
             drv.pump()
